@@ -47,7 +47,7 @@ func (C15) Generate(r *core.Rand, tier string, idx int) *core.Scenario {
 	for _, k := range []struct {
 		name string
 		den  int
-	}{{"tz", 2}, {"duphdr", 2}, {"hdrempty", 2}, {"emptyuid", 2}, {"charsetx", 2}, {"baddate", 2}} {
+	}{{"tz", 2}, {"duphdr", 2}, {"hdrempty", 2}, {"emptyuid", 2}, {"charsetx", 2}, {"baddate", 2}, {"overlap", 3}} {
 		if r.P(1, k.den) {
 			sc.Cfg[k.name] = 1
 		}
@@ -257,7 +257,7 @@ func (x *c15Run) exec(a core.Action) {
 		}
 	case "append":
 		x.nextMark++
-		m := c15Build(x.nextMark, core.NewRand(core.Mix(e.Sc.Seed, uint64(a.Arg(0))*7919+uint64(x.nextMark))), e.Sc.C("tz") == 1, e.Sc.C("duphdr") == 1, e.Sc.C("day1") == 1, e.Sc.C("baddate") == 1)
+		m := c15Build(x.nextMark, core.NewRand(core.Mix(e.Sc.Seed, uint64(a.Arg(0))*7919+uint64(x.nextMark))), e.Sc.C("tz") == 1, e.Sc.C("duphdr") == 1, e.Sc.C("day1") == 1, e.Sc.C("baddate") == 1, e.Sc.C("overlap") == 1)
 		x.msgs[m.Marker] = m
 		before := "APPEND " + c15Box + " "
 		if len(m.Flags) > 0 {
